@@ -20,7 +20,7 @@ from ..scenes import build
 
 PROPERTY = "C14"
 LEVEL = "exploration"
-BUDGET = {"quick": 1600, "thorough": 80000}
+BUDGET = {"quick": 1600, "thorough": 60000}
 CHUNK = 10
 RUN_TIMEOUT_S = 1500
 RULE = (
